@@ -12,8 +12,11 @@ M1  specs/BagTrain.tla
       tags, in the memory modes Shared and Isolated: ExactlyOncePerMStep, AllContribsAtCurrentVersion,
       HostFreshAfterIter, HandOverFresh;  deviation BAG_RESULT_NOT_ASSIGNED must be refuted in Isolated mode (and
       is shown to be invisible in Shared mode).
-    specs/PairTree.tla: the i-vector pairwise reduction loop as written, lengths 1..64: LeavesConserved,
-      EveryLeafExactlyOnce, TreeShape, Shrinks, Terminates;  deviation PAIRTREE_ODD_CARRY_DROPPED must be refuted.
+    specs/PairTree.tla: one iteration of IVectorMachine.fit on a bag as written (e-step per partition, the
+      pairwise reduction loop with its odd carry, M-step on its machine, copy-back of the attribute list), 1..64
+      partitions, both memory modes, 1..2 iterations: LeavesConserved, EveryLeafExactlyOnce, TreeShape, Shrinks,
+      Terminates, AllContribsAtCurrentVersion, HostFreshAfterIter;  deviations PAIRTREE_ODD_CARRY_DROPPED and
+      IVECTOR_SIGMA_NOT_COPIED_BACK (Isolated mode) must be refuted.
 M2  (a) every exported regrouping scenario (sampled in the quick tier) is put through the real
         `_prepare_dask_input` (private: an extra binding, skipped with a note if absent) on a bag with exactly the
         partition lengths TLC chose, and the per-class lists / regrouped labels must equal TLC's;
@@ -22,7 +25,7 @@ M2  (a) every exported regrouping scenario (sampled in the quick tier) is put th
         exactly that order (with cloudpickle round trips in Isolated mode) and compared with `fit(list, y)`:
         U, V, D within 1e-8;
     (c) IVectorMachine.fit(bag) for every composition of n = 4..6 statistics, bags with empty partitions and bags
-        of L single-element partitions for the lengths PairTree exported, seeded task orders, both memory modes,
+        of L partitions for the behaviours PairTree exported (L, memory mode, max_iterations), seeded task orders,
         compared with the list fit: T, sigma within 1e-8."""
 import collections
 import os
@@ -86,13 +89,19 @@ def run(ck):
                     kinds=("JFA", "ISV"), iters=(1, 2), max_orders=216, dev=["BAG_RESULT_NOT_ASSIGNED"], export=False)
 
     r_pt = bm.run_pairtree(ck, "pairtree-1..64", 64, coverage=True)
-    trees = {rec["L"]: rec for rec in r_pt.records}
-    if sorted(trees) != list(range(1, 65)):
-        raise tlc.MachineryError("PairTree exported lengths %s" % sorted(trees))
+    tree_recs = list(r_pt.records)
+    trees = {rec["L"]: rec for rec in tree_recs}
+    if sorted(trees) != list(range(1, 65)) or len(tree_recs) != 64 * 2 * 2:
+        raise tlc.MachineryError("PairTree exported %d behaviours, lengths %s" % (len(tree_recs), sorted(trees)))
     bm.run_pairtree(ck, "deviation:PAIRTREE_ODD_CARRY_DROPPED", 64, dev=["PAIRTREE_ODD_CARRY_DROPPED"],
                     invariants=["EveryLeafExactlyOnce"], properties=[], export=False, expect_violation=True)
+    bm.run_pairtree(ck, "deviation:IVECTOR_SIGMA_NOT_COPIED_BACK:Isolated", 8, modes=("Isolated",),
+                    dev=["IVECTOR_SIGMA_NOT_COPIED_BACK"], invariants=["HostFreshAfterIter"], properties=[],
+                    export=False, expect_violation=True)
+    bm.run_pairtree(ck, "deviation:IVECTOR_SIGMA_NOT_COPIED_BACK:Shared(invisible)", 8, modes=("Shared",),
+                    dev=["IVECTOR_SIGMA_NOT_COPIED_BACK"], export=False)
     ck.extra["exported"] = {"regroup_scenarios": len(regroup), "regroup_scenarios_with_empty_partitions": len(regroup_empty),
-                            "em_behaviours": len(behaviours), "pairtree_lengths": len(trees)}
+                            "em_behaviours": len(behaviours), "pairtree_behaviours": len(tree_recs)}
 
     # ------------------------------------------------------------------ M2 (a) regrouping
     outcomes = collections.Counter()
@@ -108,14 +117,14 @@ def run(ck):
             replay_regroup(ck, em, rec, rng, reported, outcomes)
 
     # ------------------------------------------------------------------ M2 (b) ISV / JFA fits
-    chosen = choose_behaviours(behaviours, rng, 260 if quick else 4200)
+    chosen = choose_behaviours(behaviours, rng, 360 if quick else 4200)
     ck.extra["em_behaviours_replayed"] = len(chosen)
     for rec in chosen:
         replay_fit(ck, em, rec, rng, reported, outcomes)
     ck.exhaustive = len(chosen) == len(behaviours) and len(sample_a) == len(regroup) + len(regroup_empty)
 
     # ------------------------------------------------------------------ M2 (c) i-vector fits
-    for scn in ivector_scenarios(rng, quick, trees):
+    for scn in ivector_scenarios(rng, quick, tree_recs):
         replay_ivector(ck, em, scn, trees, reported, outcomes)
     ck.extra["m2_outcomes"] = dict(outcomes)
     ck.extra["rejected"] = dict(reported)
@@ -171,7 +180,7 @@ def choose_behaviours(behaviours, rng, budget):
     return chosen + rng.sample(rest, budget - len(chosen))
 
 
-def ivector_scenarios(rng, quick, trees):
+def ivector_scenarios(rng, quick, tree_recs):
     out = []
     for n in ((4, 5) if quick else (4, 5, 6)):
         for comp in bm.compositions(n):
@@ -183,14 +192,17 @@ def ivector_scenarios(rng, quick, trees):
             comp = bm.with_empty_partitions(rng.choice(list(bm.compositions(n))), rng, rng.randint(1, 2))
             out.append({"comp": list(comp), "mode": rng.choice(("Shared", "Isolated")), "iters": rng.choice((1, 2)),
                         "builder": "exact"})
-    lengths = sorted(trees) if not quick else sorted(set([1, 2, 3, 7, 8, 9] + rng.sample(range(10, 65), 5)))
-    for L in lengths:
-        # L partitions: single elements, except that some partitions hold two statistics
-        comp = [1] * L
-        for j in rng.sample(range(L), min(L, 2)):
+    # the behaviours PairTree exported (number of partitions, memory mode, max_iterations); quick: a seeded sample
+    # that keeps the small odd and even lengths
+    recs = tree_recs if not quick else \
+        [r for r in tree_recs if r["L"] in (1, 2, 3, 5, 6, 7) and r["iters"] == 2] + \
+        rng.sample([r for r in tree_recs if r["L"] >= 8], 12)
+    for r in recs:
+        # L partitions: single elements, except that up to two partitions hold two statistics
+        comp = [1] * r["L"]
+        for j in rng.sample(range(r["L"]), min(r["L"], 2)):
             comp[j] = rng.choice((1, 2))
-        for mode in (("Shared", "Isolated") if not quick else (rng.choice(("Shared", "Isolated")),)):
-            out.append({"comp": comp, "mode": mode, "iters": 1 if L > 16 else 2, "builder": "exact"})
+        out.append({"comp": comp, "mode": r["mode"], "iters": r["iters"], "builder": "exact"})
     for k, scn in enumerate(out):
         scn["seed"] = rng.randrange(10 ** 6)
         scn["update_sigma"] = (k % 5 != 4)
@@ -420,9 +432,10 @@ def replay_ivector(ck, em, scn, trees, reported, outcomes):
     errs = {"T": rel_err(got.T, ref.T), "sigma": rel_err(got.sigma, ref.sigma)}
     bad = [a for a in ("T", "sigma") if not errs[a] <= TOL]
     if bad:
-        stale = mode == "Isolated" and any(rel_err(getattr(got, a), ubm.variances if a == "sigma" else ref.T) <= TOL
-                                           for a in bad if a == "sigma")
-        c = "M2:PairTree:" + ("HostFreshAfterIter" if stale else "EveryLeafExactlyOnce")
+        # a sigma still equal to its initial value (the UBM variances) is a stale attribute; anything else means
+        # that the M-steps did not receive the same contributions as in the list fit
+        stale = "sigma" in bad and rel_err(got.sigma, ubm.variances) <= TOL
+        c = "M2:PairTree:" + ("HostFreshAfterIter" if stale else "BagEqualsList")
         outcomes["ivector:mismatch"] += 1
         reported[c] += 1
         if reported[c] <= MAX_REPORTED:
